@@ -124,6 +124,15 @@ def generate(rng, profile):
     nT = rng.randint(*p.get("n_times", (1, 5)))
     nL = rng.randint(*p.get("n_leadtimes", (1, 4)))
     nS = rng.randint(*p.get("n_locations", (1, 4)))
+    if rng.random() < p.get("p_big_dims", 0.2):
+        # occasionally longer axes (orderings with a distinct interior need >= 4 entries)
+        which = rng.randrange(3)
+        if which == 0:
+            nT = max(nT, rng.randint(4, 6))
+        elif which == 1:
+            nL = max(nL, rng.randint(4, 5))
+        else:
+            nS = max(nS, rng.randint(4, 6))
     times = _gen_times(rng, p, nT)
     nT = len(times)
     if p.get("leadtime_profile") == "calendar":
@@ -164,16 +173,35 @@ def generate(rng, profile):
                 idx = [rng.randrange(n)]
             return idx
         keep = p.get("p_keep_dim", 0.85)
+        if rng.random() < p.get("p_full_coverage", 0.3):
+            keep = 1.0
         t_idx = subset(nT, keep)
         l_idx = subset(nL, keep)
         s_idx = subset(nS, keep)
+
+        def reorder(idx):
+            # the file lists this dimension in its own order
+            mode = rng.choice(["shuffle", "shuffle", "reverse", "interior", "rotate"])
+            if mode == "shuffle":
+                rng.shuffle(idx)
+            elif mode == "reverse":
+                idx.reverse()
+            elif mode == "interior" and len(idx) >= 4:
+                mid = idx[1:-1]
+                rng.shuffle(mid)
+                idx[1:-1] = mid
+            elif mode == "rotate" and len(idx) >= 2:
+                k = rng.randrange(1, len(idx))
+                idx[:] = idx[k:] + idx[:k]
+            else:
+                rng.shuffle(idx)
         if fmt == "nc" or rng.random() < 0.3:
             if rng.random() < p.get("p_shuffle_dims", 0.4):
-                rng.shuffle(t_idx)
+                reorder(t_idx)
             if rng.random() < p.get("p_shuffle_dims", 0.4):
-                rng.shuffle(l_idx)
+                reorder(l_idx)
         if rng.random() < p.get("p_shuffle_dims", 0.4):
-            rng.shuffle(s_idx)
+            reorder(s_idx)
         miss_rate = rng.choice(p.get("miss_rates", [0.0, 0.05, 0.15, 0.3, 0.4]))
         fields = {}
         names = []
@@ -497,4 +525,35 @@ def twin(world, victim, delta=250.0, protect=()):
                             row[s] = (v * 0.5 + 0.25) if kind == "thr" else ((v + 0.5) % 1.0 or 0.5)
                         else:
                             row[s] = v + delta
+    return w
+
+
+def sibling_times(world, rng):
+    """Copy of `world` whose universe keeps the number of times and its first and last time but has
+    different interior times (a second dataset that collides with the first on any weak fingerprint
+    such as (len, first, last)).  None when there are fewer than three times."""
+    import copy
+    ts = world["universe"]["times"]
+    if len(ts) < 3 or ts[-1] - ts[0] < len(ts) + 2:
+        return None
+    w = copy.deepcopy(world)
+    lo, hi = ts[0], ts[-1]
+    interior = set()
+    guard = 0
+    while len(interior) < len(ts) - 2 and guard < 1000:
+        guard += 1
+        r = rng.random()
+        if r < 0.5:
+            t = rng.choice(ts[1:-1]) + rng.choice([-1, 1]) * rng.choice([86400, 3600, 7 * 86400, 31 * 86400, 1, 43200])
+        else:
+            t = rng.randrange(lo + 1, hi)
+        if lo < t < hi and t not in ts:
+            interior.add(int(t))
+    if len(interior) < len(ts) - 2:
+        return None
+    w["universe"]["times"] = [lo] + sorted(interior) + [hi]
+    for p in parties(w):
+        p["layout"]["timecol"] = "unixtime"
+        if not all(-2 ** 31 <= t < 2 ** 31 for t in w["universe"]["times"]):
+            p["layout"]["nctime"] = "f8"
     return w
